@@ -13,8 +13,11 @@ pub broadcast axiom fn axiom_str_ext(a: &str, b: &str)
     requires #[trigger] a@ == #[trigger] b@ ensures a == b;
 // UTF-8 encoding of a string: uninterpreted, injective, homomorphic over concatenation
 pub uninterp spec fn utf8(s: Seq<char>) -> Seq<u8>;
-pub broadcast axiom fn axiom_utf8_injective(a: Seq<char>, b: Seq<char>)
-    requires #[trigger] utf8(a) == #[trigger] utf8(b) ensures a == b;
+// injectivity stated through the decoder (one single-term trigger: instantiations stay linear, a two-trigger
+// `utf8(a) == utf8(b) ==> a == b` made proofs flaky through quadratic matching)
+pub uninterp spec fn utf8_dec(b: Seq<u8>) -> Seq<char>;
+pub broadcast axiom fn axiom_utf8_injective(a: Seq<char>)
+    ensures utf8_dec(#[trigger] utf8(a)) == a;
 pub broadcast axiom fn axiom_utf8_concat(a: Seq<char>, b: Seq<char>)
     ensures #[trigger] utf8(a + b) == utf8(a) + utf8(b);
 pub open spec fn ascii(s: Seq<char>) -> bool { forall|i: int| 0 <= i < s.len() ==> (#[trigger] s[i] as u32) < 128 }
